@@ -1,5 +1,139 @@
-(* C17 — property theorems (placeholder until the model is built). *)
-From WI Require Import Lib.Base Lib.Info Model.Uuid Proofs.Uuid.
-Theorem C17_placeholder : True.
-Proof. exact I. Qed.
-Print Assumptions C17_placeholder.
+(* C17 — UUID version and embedded fields are decoded per RFC 9562.
+   Only statements; proofs are in Proofs/Uuid.v.
+
+   Vocabulary.  A UUID value is a list [u] of 16 bytes ([uuid_ok u]); [be_to_N u] is the same value as
+   a 128-bit number, on which Spec/C17.v defines the RFC's fields with shifts and masks.
+   [describe u] is what UUIDValue reports for the parsed value (description + attributes, model of
+   internal/file/parsers.go), [uuid_value text] / [is_uuid text] model UUIDValue / IsUUID on a file's
+   bytes (strings.TrimSpace, the brace check, google/uuid Parse).  [shown name i] is the value of
+   the attribute called [name].  [same_up_to_case t s]: t spells the lower-case text s in some letter
+   case.  [is_ws c]: c is a code point with the Unicode property White_Space. *)
+From WI Require Import Lib.Base Lib.Info Lib.Utf8 Lib.Strings Lib.Time Model.Uuid Spec.C17 Proofs.Uuid.
+Open Scope N_scope.
+
+(* the description names the version in octet 6 (versions 1..8 of RFC 9562 4.2), the Nil and Max
+   UUIDs by value, and nothing else — for all 2^128 values, whatever the variant bits *)
+Theorem C17_version : forall u, uuid_ok u = true ->
+  i_desc (describe u) = spec_description (be_to_N u).
+Proof. exact description_shown. Qed.
+Print Assumptions C17_version.
+
+Theorem C17_version_number : forall u, uuid_ok u = true ->
+  let v := spec_version (be_to_N u) in
+  shown_version (i_desc (describe u)) = if (1 <=? v) && (v <=? 8) then Some v else None.
+Proof. exact version_shown. Qed.
+Print Assumptions C17_version_number.
+
+Theorem C17_nil_max :
+  i_desc (describe nil_uuid) = bs "UUID (Nil UUID)" /\ i_desc (describe max_uuid) = bs "UUID (Max UUID)" /\
+  forall u, uuid_ok u = true ->
+    (i_desc (describe u) = bs "UUID (Nil UUID)" <-> be_to_N u = spec_nil) /\
+    (i_desc (describe u) = bs "UUID (Max UUID)" <-> be_to_N u = spec_max).
+Proof. exact nil_max_shown. Qed.
+Print Assumptions C17_nil_max.
+
+(* versions 1, 6, 7: the UTC time shown is the rendering (layout 2006-01-02 15:04:05.9999999, UTC) of
+   the instant the RFC's layout encodes: d = 100-ns units since 1970-01-01 (60-bit Gregorian count
+   minus 0x01B21DD213814000, or 48-bit milliseconds x 10^4).  All 2^128 values, by bit-field algebra. *)
+Theorem C17_time : forall u d, uuid_ok u = true -> spec_unix100 (be_to_N u) = Some d ->
+  shown "Time (UTC)" (describe u) = Some (fmt_datetime_frac7_utc (spec_sec d) (spec_nsec d)).
+Proof. exact time_shown. Qed.
+Print Assumptions C17_time.
+
+Theorem C17_time_raw : forall u, uuid_ok u = true ->
+  (spec_version (be_to_N u) = 1 -> shown "Time (raw)" (describe u) = Some (dec_of_Z (Z.of_N (spec_time_v1 (be_to_N u))))) /\
+  (spec_version (be_to_N u) = 6 -> shown "Time (raw)" (describe u) = Some (dec_of_Z (Z.of_N (spec_time_v6 (be_to_N u))))).
+Proof. exact raw_shown. Qed.
+Print Assumptions C17_time_raw.
+
+(* node (48 bits, 12 hex digits), 14-bit clock sequence, DCE domain (octet 9) and identifier (time_low) *)
+Theorem C17_fields : forall u, uuid_ok u = true ->
+  let n := be_to_N u in
+  (spec_version n = 1 ->
+     shown "Node id" (describe u) = Some (hex_of false (N_to_be 6 (spec_node n))) /\
+     shown "Clock sequence" (describe u) = Some (dec_of_N (spec_clock_seq n))) /\
+  (spec_version n = 2 ->
+     shown "Domain" (describe u) = Some (spec_domain_name (spec_dce_domain n)) /\
+     shown "Id" (describe u) = Some (dec_of_N (spec_dce_id n)) /\
+     shown "Node id" (describe u) = Some (hex_of false (N_to_be 6 (spec_node n)))).
+Proof. exact fields_shown. Qed.
+Print Assumptions C17_fields.
+
+(* every spelling: 4 forms x any letter case x any run of white-space code points on either side is
+   recognised and gets the description of the value it spells *)
+Theorem C17_forms : forall u f t cps1 cps2,
+  uuid_ok u = true -> same_up_to_case t (form f u) -> Forall is_ws cps1 -> Forall is_ws cps2 ->
+  let text := flat_map encode_rune cps1 ++ t ++ flat_map encode_rune cps2 in
+  is_uuid text = true /\ uuid_value text = Ok (describe u).
+Proof. exact forms_accepted. Qed.
+Print Assumptions C17_forms.
+
+(* nothing else is recognised: an accepted text is white space, one of the four forms of some UUID in
+   some letter case, white space — for all byte strings *)
+Theorem C17_only_uuids : forall s, is_uuid s = true ->
+  exists u f, uuid_ok u = true /\ same_up_to_case (trim_space s) (form f u).
+Proof. exact only_uuids. Qed.
+Print Assumptions C17_only_uuids.
+
+Theorem C17_trim_removes_only_white_space : forall s, exists cps1 cps2,
+  Forall is_ws cps1 /\ Forall is_ws cps2 /\
+  s = flat_map encode_rune cps1 ++ trim_space s ++ flat_map encode_rune cps2.
+Proof. exact trim_space_removes_ws. Qed.
+Print Assumptions C17_trim_removes_only_white_space.
+
+Theorem C17_accepted_text_shape : forall s, is_uuid s = true ->
+  exists u f t cps1 cps2, uuid_ok u = true /\ same_up_to_case t (form f u) /\ Forall is_ws cps1 /\ Forall is_ws cps2 /\
+    s = flat_map encode_rune cps1 ++ t ++ flat_map encode_rune cps2.
+Proof. exact accepted_text_shape. Qed.
+Print Assumptions C17_accepted_text_shape.
+
+(* the model and the spec on the RFC 9562 appendix A/B test vectors (examples, not the claim) *)
+Theorem C17_rfc_vectors :
+  uuid_value (bs "C232AB00-9414-11EC-B3C8-9E6BDECED846") =
+    Ok (leaf (bs "UUID v1 (Gregorian time)")
+          [(bs "Node id", bs "9e6bdeced846"); (bs "Time (raw)", bs "138648505420000000");
+           (bs "Time (UTC)", bs "2022-02-22 19:22:22"); (bs "Clock sequence", bs "13256")]) /\
+  uuid_value (bs "1EC9414C-232A-6B00-B3C8-9E6BDECED846") =
+    Ok (leaf (bs "UUID v6 (reordered Gregorian time)")
+          [(bs "Time (raw)", bs "138648505420000000"); (bs "Time (UTC)", bs "2022-02-22 19:22:22")]) /\
+  uuid_value (bs "017F22E2-79B0-7CC3-98C4-DC0C0C07398F") =
+    Ok (leaf (bs "UUID v7 (Unix epoch time)")
+          [(bs "Time (raw)", bs "138648505420000000"); (bs "Time (UTC)", bs "2022-02-22 19:22:22")]) /\
+  uuid_value (bs "5df41881-3aed-3515-88a7-2f4a814cf09e") = Ok (leaf (bs "UUID v3 (MD5)") []) /\
+  uuid_value (bs "919108f7-52d1-4320-9bac-f847db4148a8") = Ok (leaf (bs "UUID v4 (random)") []) /\
+  uuid_value (bs "2ed6657d-e927-568b-95e1-2665a8aea6a2") = Ok (leaf (bs "UUID v5 (SHA1)") []) /\
+  uuid_value (bs "2489E9AD-2EE2-8E00-8EC9-32D5F69181C0") = Ok (leaf (bs "UUID v8 (custom)") []) /\
+  spec_unix100 (be_to_N rfc_v1) = Some 16455577420000000%Z /\
+  spec_unix100 (be_to_N rfc_v6) = Some 16455577420000000%Z /\
+  spec_unix100 (be_to_N rfc_v7) = Some 16455577420000000%Z /\
+  spec_read_uuid (bs "1EC9414C-232A-6B00-B3C8-9E6BDECED846") = Some (be_to_N rfc_v6).
+Proof. exact rfc_vectors. Qed.
+Print Assumptions C17_rfc_vectors.
+
+(* ---- the code before the repairs ([legacy]) refutes the property; witnesses checked by computation ---- *)
+(* F18: RFC 9562 A.5 vector shown in the year 8612 *)
+Theorem C17_time_refuted : exists u d, uuid_ok u = true /\ spec_unix100 (be_to_N u) = Some d /\
+  shown "Time (UTC)" (describe_gen legacy u) = Some (bs "8612-07-16 21:57:51.9982336") /\
+  fmt_datetime_frac7_utc (spec_sec d) (spec_nsec d) = bs "2022-02-22 19:22:22".
+Proof. exact time_refuted_legacy. Qed.
+Print Assumptions C17_time_refuted.
+
+(* F19 *)
+Theorem C17_nil_max_refuted :
+  i_desc (describe_gen legacy max_uuid) = bs "UUID (unknown type)" /\
+  spec_description (be_to_N max_uuid) = bs "UUID (Max UUID)".
+Proof. exact max_refuted_legacy. Qed.
+Print Assumptions C17_nil_max_refuted.
+
+(* F20: x<uuid>y *)
+Theorem C17_only_uuids_refuted : exists s, is_uuid_gen legacy s = true /\
+  ~ exists u f, uuid_ok u = true /\ same_up_to_case (trim_space s) (form f u).
+Proof. exact only_uuids_refuted_legacy. Qed.
+Print Assumptions C17_only_uuids_refuted.
+
+(* F37: version 8 *)
+Theorem C17_version_refuted : uuid_ok rfc_v8 = true /\
+  i_desc (describe_gen legacy rfc_v8) = bs "UUID (unknown type)" /\
+  spec_description (be_to_N rfc_v8) = bs "UUID v8 (custom)".
+Proof. exact v8_refuted_legacy. Qed.
+Print Assumptions C17_version_refuted.
